@@ -55,6 +55,20 @@ CHECKS = {
              "attributed to the right origin and circuit. Seeded sampling of sizes, schedules and fault lists.",
         note="Trusts ChaCha20-Poly1305 in ipv8_rust_tunnels. Hidden-service e2e circuits and the native Rust endpoint are not "
              "covered. Loss is not a violation: delivery is demanded only on FIFO fault-free links."),
+    "C05": dict(
+        level="exploration", design="DESIGN.md 4/C05",
+        technique=TECH + ": concurrent circuits over a small shared relay pool on SimNet, real adversary node issuing forged "
+                         "cells/creates/destroys from an explicit attack list before/after request-cache expiry (virtual time), "
+                         "routing tables compared by object identity, per-circuit delivery log",
+        text="1..3 originators build up to 6 concurrent circuits (1..3 hops) over 3..4 shared relays/exits, each circuit talking "
+             "to its own outside server; handshakes, data and pings interleave under seeded latency. After 5 or 70 virtual "
+             "seconds a real adversary node sends cells for unknown ids, garbage and foreign-circuit bodies on live ids, create "
+             "requests naming live ids of every table, destroys signed by itself and replays of genuine destroys. Entries of "
+             "established circuits must keep their identity, keys and peer across the attack window, a legitimate teardown must "
+             "remove only its own circuit, and every payload/reply must show up only at its own circuit's server/originator, "
+             "through its own exit, labelled with its own circuit.",
+        note="Entries may vanish through inactivity/age sweeps by design; the attack window is kept below those limits and circuits "
+             "are kept busy. Sampling over topologies, schedules and attack lists."),
     "C12": dict(
         level="exploration", design="DESIGN.md 4/C12",
         technique=TECH + ": operation histories (incl. snapshot/restart and LRU-overflow configurations) on the real Network "
